@@ -10,7 +10,7 @@ TRUSTED = ["Lean 4.33 kernel; axioms: propext, Quot.sound, Classical.choice at m
            "constants is read by byte-level readers proved to invert the printers (stand-ins for the grammar of llir/ll, compared with the real parser on printed and mutated "
            "texts); line splitting and the identifier tokens are trusted as in M-Core",
            "M-Core-3 (LlirModel/Core3.lean): function definitions; every line (header, label, instruction, terminator) is read by byte-level readers proved to invert the printers "
-           "(generic over a table of 73 rows); the translation models asm/local.go (AssignIDs through the numbering model, duplicate / undefined / label-kind checks, operand retyping); "
+           "(generic over a table of 74 rows); the translation models asm/local.go (AssignIDs through the numbering model, duplicate / undefined / label-kind checks, operand retyping); "
            "splitting the text into lines is trusted; compared with the real parser on printed functions and 13 kinds of single-point mutants (acceptance AND re-printed text)"] + modprops.MODEL_TRUST + [
            "PARTIAL: outside M-Core and the leaf categories (C08, C09, C11, C16, C17, C18, C20, C04/C05) the grammar is tied by correspondence only: byte-exact fixpoint of "
            "generated canonical modules, graph closure, stability of the corpus modules; LLVM's own reading of the text is not consulted in the quick tier"]
@@ -41,7 +41,7 @@ def gen(tier, rng, harness=None, driver=None):
         ts, gs = core2gen.gen_core2(rng)
         lines += ["core2.print %s %s" % (ts, gs), "core2.reparse %s %s" % (ts, gs), "!core2.rt %s %s" % (ts, gs)]
     lines += readconst_stream(rng, driver, n)
-    # M-Core-3: function definitions (parameters, named / numbered blocks, 73 instruction and terminator rows (integer binary and bitwise operations, icmp, load / store / alloca with an optional alignment, select, the 13 conversions, phi, freeze, fneg, fadd / fsub / fmul / fdiv / frem, fcmp with its 16 predicates, extractelement, insertelement, shufflevector, extractvalue and insertvalue with their index paths, ret, br, conditional br, unreachable) over locals and constants): model text
+    # M-Core-3: function definitions (parameters, named / numbered blocks, 74 instruction and terminator rows (integer binary and bitwise operations, icmp, load / store / alloca with an optional alignment, select, the 13 conversions, phi, freeze, fneg, fadd / fsub / fmul / fdiv / frem, fcmp with its 16 predicates, extractelement, insertelement, shufflevector, extractvalue and insertvalue with their index paths, getelementptr with any index list (result type through the C07 model), ret, br, conditional br, unreachable) over locals and constants): model text
     # == implementation text byte for byte for the constructed function and for the re-parsed one; the proved line readers + translation against
     # the real parser on printed texts and on single-point mutants (undefined / re-quoted uses, duplicated definitions, wrong IDs, nameless
     # results and blocks, changed operand types, deleted / doubled terminators, swapped lines, deleted labels, extra operands, dropped commas)
